@@ -4,6 +4,8 @@ import (
 	"fmt"
 	"sort"
 	"strings"
+	"sync"
+	"sync/atomic"
 
 	"github.com/elementsproject/peerswap/messages"
 )
@@ -29,6 +31,7 @@ func init() {
 			w := newWorld(defaultCfg())
 			emit("reg.reset", "ok")
 			done++
+			freshScid := map[string]string{}
 			ids := []string{}
 			for i := 0; i < 6; i++ {
 				ids = append(ids, fmt.Sprintf("%064x", i+1))
@@ -36,7 +39,14 @@ func init() {
 			for k := 0; k < 10+r.intn(30) && done < n; k++ {
 				done++
 				id := ids[r.intn(len(ids))]
-				switch r.intn(5) {
+				switch r.intn(6) {
+				case 5:
+					scid := r.pickStr(scidSpellings)
+					fid, err := w.svc.VerifLockFresh(scid, selfNode, peerNode, r.bool())
+					if err == nil {
+						freshScid[fid] = scid
+					}
+					emit(fmt.Sprintf("reg.lock %s %s", fid, hexs(scid)), lockErrClass(err))
 				case 0, 1, 2:
 					scid := r.pickStr(scidSpellings)
 					emit(fmt.Sprintf("reg.lock %s %s", id, hexs(scid)), lockErrClass(w.svc.VerifLockSwap(id, scid)))
@@ -46,6 +56,9 @@ func init() {
 				case 4:
 					var xs []string
 					for aid, v := range w.svc.VerifActiveSwaps() {
+						if v[1] == "" {
+							v[1] = freshScid[aid] // no swap data yet: the channel it holds is the one it was locked with
+						}
 						xs = append(xs, aid+":"+hexs(v[1]))
 					}
 					sort.Strings(xs)
@@ -57,16 +70,80 @@ func init() {
 	}
 
 	monitors["C10"] = func(r *rng, n int, res *MonitorResult) {
-		res.Rule = "several swaps driven concurrently in one node (local SwapIn/SwapOut and incoming requests in all four roles, channel ids drawn from both spellings of three channels, cancels/timeouts/restarts in between) on the real service; after every step: no two non-terminal active swaps share a channel after normalising the separator; a request on a busy channel got a cancel and no agreement; distinct = distinct step sequences"
+		res.Rule = "several swaps driven concurrently in one node (local SwapIn/SwapOut and incoming requests in all four roles, local initiations preempted right after lockSwap, channel ids drawn from both spellings of three channels, cancels/timeouts/restarts in between) on the real service; after every step: no two non-terminal active swaps share a channel after normalising the separator; a request on a busy channel got a cancel and no agreement; distinct = distinct step sequences"
 		seen := map[string]bool{}
+		// concurrent callers: lockSwap must grant a channel to exactly one of several simultaneous callers
+		// (the schedule is the Go scheduler's; a populated registry widens the window between check and insert)
+		{
+			w := newWorld(defaultCfg())
+			for i := 0; i < 3000; i++ {
+				w.svc.VerifLockSwap(fmt.Sprintf("%064x", 0x100000+i), fmt.Sprintf("7x7x%d", i))
+			}
+			rounds := 20
+			if n > 1000 {
+				rounds = 200
+			}
+			for round := 0; round < rounds; round++ {
+				const callers = 8
+				var wg sync.WaitGroup
+				start := make(chan struct{})
+				var granted int32
+				ids := make([]string, callers)
+				for g := 0; g < callers; g++ {
+					ids[g] = fmt.Sprintf("%064x", 0x900000+round*callers+g)
+					wg.Add(1)
+					go func(g int) {
+						defer wg.Done()
+						scid := fmt.Sprintf("9x%dx1", round)
+						if g%2 == 1 {
+							scid = fmt.Sprintf("9:%d:1", round)
+						}
+						<-start
+						if w.svc.VerifLockSwap(ids[g], scid) == nil {
+							atomic.AddInt32(&granted, 1)
+						}
+					}(g)
+				}
+				close(start)
+				wg.Wait()
+				res.Evaluations++
+				res.Histogram["concurrent round"]++
+				if granted != 1 {
+					res.addFinding("C10/two-active-swaps-on-one-channel", fmt.Sprintf("%d of %d simultaneous lockSwap calls for one channel were granted", granted, callers),
+						map[string]interface{}{"schedule": "8 goroutines released together call lockSwap for channel 9x<round>x1 / 9:<round>:1 on a registry holding 3000 other swaps", "round": round, "granted": granted})
+					break
+				}
+			}
+			w.close()
+		}
 		for i := 0; i < n; i++ {
 			w := newWorld(defaultCfg())
 			var ctxs []*Ctx
 			var hist []string
+			fresh := map[string]string{} // local initiations preempted right after lockSwap: swap id -> channel
 			steps := 3 + r.intn(8)
 			for k := 0; k < steps; k++ {
 				var step string
 				var c *Ctx
+				if r.intn(6) == 0 {
+					// a local SwapOut/SwapIn that has taken its lock and not yet sent its first event
+					scid := r.pickStr(scidSpellings[:6])
+					out := r.bool()
+					id, err := w.svc.VerifLockFresh(scid, selfNode, peerNode, out)
+					hist = append(hist, fmt.Sprintf("lockfresh out=%v scid=%s -> %v", out, scid, err == nil))
+					res.Evaluations++
+					res.Histogram["lockfresh"]++
+					norm := strings.ReplaceAll(scid, ":", "x")
+					for aid, v := range w.svc.VerifActiveSwaps() {
+						if aid != id && !finishedState(v[0]) && (strings.ReplaceAll(v[1], ":", "x") == norm || strings.ReplaceAll(fresh[aid], ":", "x") == norm) && err == nil {
+							res.addFinding("C10/two-active-swaps-on-one-channel", "two non-terminal swaps are active on channel "+norm, append([]string{}, hist...))
+						}
+					}
+					if err == nil {
+						fresh[id] = scid
+					}
+					continue
+				}
 				if len(ctxs) == 0 || r.intn(3) > 0 {
 					c = newCtx(w)
 					c.peerKey = detKey(fmt.Sprint("peer", len(ctxs)))
@@ -80,9 +157,12 @@ func init() {
 				}
 				sentBefore := len(w.msgr.sent)
 				busyBefore := map[string]bool{}
-				for _, v := range w.svc.VerifActiveSwaps() {
+				for aid, v := range w.svc.VerifActiveSwaps() {
 					if !finishedState(v[0]) {
 						busyBefore[strings.ReplaceAll(v[1], ":", "x")] = true
+						if f, ok := fresh[aid]; ok {
+							busyBefore[strings.ReplaceAll(f, ":", "x")] = true
+						}
 					}
 				}
 				out := c.Step(step)
@@ -91,6 +171,9 @@ func init() {
 				// judge
 				chans := map[string]string{}
 				for id, v := range w.svc.VerifActiveSwaps() {
+					if v[1] == "" {
+						v[1] = fresh[id]
+					}
 					if finishedState(v[0]) || v[1] == "" {
 						continue
 					}
